@@ -163,6 +163,13 @@ func genC14(r *Rng) *Plan {
 	case 7:
 		doc.Services[0].Name = ""
 		gen += "-noservice"
+	case 9:
+		// an empty list entry (what a torn write or a stray dash leaves behind)
+		doc.Raw = doc.Render() + "-\n"
+		gen += "-emptyentry"
+	case 10:
+		doc.Raw = "- service: svc1\n  default:\n    from: svc1.sso.sim\n    to: svc1.backend.sim\n    extra_routes:\n      -\n      - from: svc1-extra.sso.sim\n        to: svc1-extra.backend.sim\n"
+		gen += "-emptyextra"
 	case 8:
 		if b := firstBlock(doc.Services[0]); b != nil {
 			b.Type, b.From = "rewrite", "^(unclosed"
